@@ -65,7 +65,9 @@ func init() {
 			return []NodeCfg{{Kind: "stump", Relay: "reenc", NoUndo: true}, {Kind: "pollard", Relay: "reenc", NoUndo: true},
 				{Kind: "mapfull", TotalRows: -1, Relay: "reenc", NoUndo: true, DetMaps: r.Bool()},
 				{Kind: "mapfull", TotalRows: rowsChoice(r), Relay: "reenc", NoUndo: true},
-				{Kind: "stump", Relay: "reenc", NoUndo: true}}
+				{Kind: "stump", Relay: "reenc", NoUndo: true},
+				{Kind: "mappartial", TotalRows: -1, Relay: "reenc", NoUndo: true, DetMaps: r.Bool()},
+				{Kind: "mappartial", TotalRows: []int{0, 0, 1 + r.Intn(8)}[r.Intn(3)], Relay: "reenc", NoUndo: true}}
 		},
 		MaxBlocks: 30, MaxAdds: 48, PReorg: 3, NetFaults: true})
 	reg(&Profile{Name: "c06", Property: "C06", Oracles: []string{"roots", "lookup", "prove", "provable-set", "partial"},
